@@ -132,3 +132,27 @@ pub fn sigq_usage() -> Option<(u64, u64)> {
 
 /// si_code of a signal sent with sigqueue / pthread_sigqueue.
 pub const SI_QUEUE: c_int = -1;
+
+/// Whether this execution environment lets a process install a handler for `n` (the kernel does for 1..=64 except
+/// KILL, STOP and the two signals glibc keeps for itself; valgrind additionally keeps the highest real-time signal).
+pub fn settable(n: c_int) -> bool {
+    if !(1..=64).contains(&n) || n == libc::SIGKILL || n == libc::SIGSTOP || n == 32 || n == 33 {
+        return false;
+    }
+    unsafe {
+        let mut old: libc::sigaction = std::mem::zeroed();
+        if libc::sigaction(n, std::ptr::null(), &mut old) != 0 {
+            return false;
+        }
+        // a real handler must be accepted as well (valgrind answers the query and accepts SIG_DFL for its reserved
+        // signal, but refuses a handler): install a no-op one for an instant, then put the old disposition back
+        extern "C" fn nop(_s: c_int) {}
+        let mut new: libc::sigaction = std::mem::zeroed();
+        new.sa_sigaction = nop as usize;
+        libc::sigemptyset(&mut new.sa_mask);
+        if libc::sigaction(n, &new, std::ptr::null_mut()) != 0 {
+            return false;
+        }
+        libc::sigaction(n, &old, std::ptr::null_mut()) == 0
+    }
+}
